@@ -22,7 +22,7 @@ ASSUMPTIONS = ["start_pos is legal: 0, or coords[start_pos] <= coord (asserted b
                "only the listed accessors run, so no handle is ever detached by a removal"]
 
 KINDS = ["read", "read", "read_prefix", "read_noalloc", "ref", "ref", "ref", "handle", "handle", "position",
-         "positionRef", "onecoord", "onecoord", "assign_prefix", "elem_assign"]
+         "positionRef", "onecoord", "onecoord", "assign_prefix", "elem_assign", "fiber_iadd"]
 
 
 @st.composite
@@ -214,6 +214,27 @@ def check(case, rec):
                 written.add(pt + q)
             handles[:] = [h for h in handles if h[0][:n] != pt]     # handles into the replaced sub-tree are gone
             rec.cls("assign-nonempty", bool(src_cont))
+        elif k == "fiber_iadd":
+            # in-place sum with a fiber at a (partial) point: the stored boxes are updated, so handles obtained
+            # earlier keep aliasing them
+            f, lvl, prefix = m.target_path(o["path"])
+            if lvl < d - 1:
+                continue
+            g = m.leaf_fiber_from([[o["sel"][0], o["val"]], [o["sel"][1], o["val"] + 1], [o["sel"][2], 1]], lvl)
+            gc = {c: Payload.get(p) for c, p in zip(g.coords, g.payloads)}
+            f += g
+            for c, v in gc.items():
+                if v != default:
+                    apply_write(mdl, prefix + (c,), 2, v, default)
+                    written.add(prefix + (c,))
+            nwrites += 1
+            # (an element whose sum is the default is taken out of the fiber: handles to it are gone)
+            for hpt, href, _ in handles:
+                so = stored_obj(m.root, hpt)
+                if so is not ABSENT and hpt[:len(prefix)] == prefix and so is not href:
+                    raise Violation("ref-alias", f"step {step}: after f += g the payload stored at {hpt} is no longer the "
+                                    f"handle obtained for it earlier")
+            handles[:] = [h for h in handles if stored_obj(m.root, h[0]) is h[1]]
         elif k == "elem_assign":
             # assignment with a whole element on both sides (taken out of leaf fibers by position): the
             # destination point takes the source's VALUE; the two points stay independent afterwards
@@ -235,7 +256,12 @@ def check(case, rec):
                 before = frozen()
                 pos = f.getPosition(c)
                 want = f.coords.index(c) if c in f.coords else None
-                if pos != want:
+                # (the docstring says None for an EMPTY element; for a stored element that holds nothing the index
+                # -- what the code answers -- and None are both defensible: the statement does not decide)
+                held = f.payloads[want] if want is not None else None
+                stored_empty = want is not None and (held.isEmpty() if isinstance(held, Fiber)
+                                                     else Payload.get(held) == default)
+                if pos != want and not (stored_empty and pos is None):
                     raise Violation("position", f"step {step}: getPosition({c}) = {pos}, coords {f.coords}")
                 same(before, f"getPosition({c})")
             else:
@@ -336,6 +362,69 @@ def with_path(tree, pt, default):
     return out
 
 
+# ---------------------------------------------------------------- long fibers, far shortcuts
+@st.composite
+def long_cases(draw):
+    S = draw(st.sampled_from([24, 40]))
+    default = draw(st.sampled_from([0, 0, 2]))
+    cs = sorted(draw(st.sets(st.integers(0, S - 1), min_size=10, max_size=30)))
+    ops_ = draw(st.lists(st.tuples(st.sampled_from(["getPayload", "getPosition", "getPayloadRef", "getPositionRef"]),
+                                   st.integers(0, S - 1), st.sampled_from([8, 9, 8, 7, 10, 1, 0, 16, 3]),
+                                   st.booleans(), gen.values(default)), min_size=1, max_size=12))
+    return {"S": S, "default": default, "elems": [[c, draw(gen.values(default, p_default=0.1))] for c in cs],
+            "ops": [list(o) for o in ops_], "owned": draw(st.booleans())}
+
+
+def check_long(case, rec):
+    """a one-level fiber with many elements: the accessors with a legal shortcut that lies several positions
+    before the target answer like the accessors without one"""
+    import bisect
+    S, default = case["S"], case["default"]
+    f = build.leaf_fiber([c for c, _ in case["elems"]], [v for _, v in case["elems"]], shape=S, default=default,
+                         owned=case["owned"])
+    mdl = {c: v for c, v in case["elems"] if v != default}
+    for name, c, back, boxed, v in case["ops"]:
+        idx = bisect.bisect_left(f.coords, c)                    # position of c, or where it would go
+        legal_max = idx if idx < len(f.coords) and f.coords[idx] == c else idx - 1
+        sp = max(0, min(legal_max, idx - back))
+        if f.coords and sp > 0 and f.coords[sp] > c:
+            sp = 0
+        if not f.coords:
+            sp = 0
+        arg = Payload(sp) if boxed else sp
+        if name == "getPayload":
+            got = f.getPayload(c, start_pos=arg)
+            if Payload.get(got) != mdl.get(c, default):
+                raise Violation("start-pos", f"getPayload({c}, start_pos={sp}) = {got!r}, model says {mdl.get(c, default)}; "
+                                f"coords {f.coords}")
+        elif name == "getPosition":
+            got = f.getPosition(c, start_pos=arg)
+            want = f.coords.index(c) if c in f.coords else None
+            if got != want and not (want is not None and got is None and Payload.get(f.payloads[want]) == default):
+                raise Violation("start-pos", f"getPosition({c}, start_pos={sp}) = {got}, expected {want}; coords {f.coords}")
+        elif name == "getPayloadRef":
+            ref = f.getPayloadRef(c, start_pos=arg)
+            if c not in f.coords or f.payloads[f.coords.index(c)] is not ref or Payload.get(ref) != mdl.get(c, default):
+                raise Violation("start-pos", f"getPayloadRef({c}, start_pos={sp}) is not the payload stored at {c} "
+                                f"({ref!r}); coords {f.coords}")
+            ref <<= v
+            if v == default:
+                mdl.pop(c, None)
+            else:
+                mdl[c] = v
+        else:
+            pos = f.getPositionRef(c, start_pos=arg)
+            if pos is None or pos >= len(f.coords) or f.coords[pos] != c:
+                raise Violation("start-pos", f"getPositionRef({c}, start_pos={sp}) = {pos}; coords {f.coords}")
+        observe.wellformed(f, 1, f"after {name}({c}, start_pos={sp})")
+        got = observe.content_of(f, 1, default)
+        if got != {(k,): x for k, x in mdl.items()}:
+            raise Violation("content", f"after {name}({c}, start_pos={sp}) the fiber holds {got}, model {mdl}")
+        rec.cls(name)
+        rec.cls("shortcut-8-or-more-positions-before", idx - sp >= 8)
+    rec.nontrivial(len(case["ops"]) >= 4)
+
+
 # ---------------------------------------------------------------- rank-0 tensors
 @st.composite
 def rank0_cases(draw):
@@ -370,4 +459,5 @@ def check_rank0(case, rec):
 
 
 PARTS = [Part("access", cases(), check, n_quick=4000, n_thorough=25000),
-         Part("rank0", rank0_cases(), check_rank0, n_quick=100, n_thorough=300)]
+         Part("rank0", rank0_cases(), check_rank0, n_quick=100, n_thorough=300),
+         Part("long-shortcuts", long_cases(), check_long, n_quick=500, n_thorough=4000)]
